@@ -2,12 +2,37 @@
 
 Bounded exhaustive exploration: the full Cartesian product of small per-dimension alphabets (coupling strength x
 temperature x coupling-operator model x initial state x system kind x memory setting x epsrel) is run through every
-producer of system states (Tempo, pt_tempo_compute + compute_dynamics, MeanFieldTempo, PT-TEBD, GibbsTempo) and the
-invariants  |tr rho - 1|,  ||rho - rho^dagger||_max,  lambda_min(rho)  (and results['norm'] for PT-TEBD) are
-evaluated on EVERY reported state of EVERY run.  The oracle is the invariant itself (no reference needed): for a
-physical initial state the exact discretised evolution (symmetric Trotter splitting of CPTP half-step maps and the
-exact influence functional of a Gaussian bath) is trace preserving, Hermiticity preserving and - with full memory -
-completely positive, so every deviation is truncation error and has to scale with the requested epsrel.
+producer of system states (Tempo, pt_tempo_compute + compute_dynamics, MeanFieldTempo, compute_dynamics_with_field,
+PT-TEBD, GibbsTempo) and the invariants  |tr rho - 1|,  max|rho - rho^dagger|,  lambda_min(rho)  (and
+results['norm'] for PT-TEBD) are evaluated on EVERY reported state of EVERY run.  The oracle is the invariant
+itself (no reference needed): for a physical initial state the exact discretised evolution (symmetric Trotter
+splitting of CPTP half-step maps and the exact influence functional of a Gaussian bath) is trace preserving,
+Hermiticity preserving and - with full memory - completely positive, so every deviation is truncation error and has
+to scale with the requested epsrel: bound  C_TOL * epsrel * steps  at BOTH epsrel = 1e-5 and 1e-8.
+
+Alphabet members and the code branch each one stands for
+  alpha 0.1 / 0.5 / 1.5          weak ... strong coupling (bond dimensions 4 ... 27 at six steps)
+  T 0 / 1                        zero-temperature and thermal branch of the bath correlations
+  model d2x                      non-diagonal coupling operator (unitary transform of the influence tensors)
+        d3                       d=3, nine distinct (difference, sum) pairs; 3 steps (see steps_of)
+        d3deg-u                  d=3 with a repeated eigenvalue and unique=True (degeneracy maps)
+        [thorough: d2z, d2z-u, d3rot (non-diagonal d=3)]
+  state pure / mixed / rankdef   rank 1, full rank, rank d-1 without weight on the last level (d=3 only)
+  system unitary                 System, complex Hamiltonian
+         dissipative             + two Lindblad terms with complex non-normal jump operators
+         td                      TimeDependentSystem: H(t), gamma(t), A(t) (integrated Liouvillian)
+         block                   dissipative with the last level decoupled: together with 'rankdef' the exact
+                                 state keeps a zero eigenvalue for ever, so positivity is tested AT the boundary
+  memory full / dkmax2 / dkmax2+tau   no cut-off | dkmax=2 < steps | dkmax=2 with add_correlation_time=inf
+                                 (rectangle branch of influence_matrix); positivity only claimed for 'full'
+  PT-TEBD layouts edge / middle / two : 3-site chain with one PT-TEMPO process tensor at the edge / in the middle,
+                                 2-site chain with two; unitary and dissipative (site + nearest-neighbour) chains
+  Gibbs: model (diagonal coupling) x real/complex H x n_steps x alpha x T {2, 0.5} x epsrel
+
+Departures from DESIGN.md sec. 4 (C04), all additions except the last: a third memory member (dkmax2+tau), the 'block'
+system, coupling models with transform / degeneracy, two-site PT-TEBD density matrices; the constant of the
+tolerance is 50 (not 20): PT-TEBD norm and PT-TEMPO traces deviate by up to 8.4e-5 at epsrel=1e-5, and 30x head-room
+is required.  The mean-field producers run a reduced (alpha, memory) product in the quick tier (cost).
 """
 import itertools
 import os
@@ -649,6 +674,11 @@ def run(tier, seed):
     for case, r in bres:
         account(case, r, gibbs_classify(case), case["n_steps"])
 
+    if os.environ.get("C04_DUMP"):           # debugging aid
+        import json
+        with open(os.environ["C04_DUMP"], "w") as fh:
+            json.dump({str(sorted(c.items())): r["move"] for c, r in
+                       [x for g in gres for x in g] + [x for g in tres for x in g] + list(bres)}, fh, indent=0)
     print("[C04] cpu seconds by producer:", {k: round(v, 1) for k, v in cpu.items()}, "worst:", worst[0], file=sys.stderr)
     all_cases = [c for grp in gres for c, _ in grp]
     tol_hi = C_TOL * EPS[0] * N_STEPS
